@@ -19,6 +19,10 @@
 (*                                                                         *)
 (* Family = "reserved": one (entry point, enable_loop, argument names,     *)
 (*   template-level assignment) per behaviour, no body steps.              *)
+(* Family = "rebind": histories over the rebinding steps only (new object,  *)
+(*   EQUAL new object, mutation in place, by-name def call written in the  *)
+(*   body text / a call body / a control line / an anonymous block), with  *)
+(*   and without <%page> arguments, explored deeper.                       *)
 (* Family = "history": the body of a template performs up to Depth steps   *)
 (*   (assignments, reads through the context from the body / a def reached *)
 (*   through self / a def called by name, assignments inside defs, reads   *)
@@ -45,21 +49,30 @@ Show(d) == {<<n, d[n]>> : n \in {m \in DOMAIN d : d[m] # Absent}}
 
 VARIABLES enableLoop, entry, args, decl,   \* the configuration of the behaviour
           pc, heap, dataId, kwId,          \* context object: two dictionaries on the heap
-          locals,                          \* the body's <% %> assignments (__M_locals)
+          paged,                           \* whether x and y are <%page> arguments (they then start as body locals)
+          locals,                          \* the body's <% %> assignments and page arguments (__M_locals)
+          ob,                              \* the objects bound by the body: ob.objs[k] = [cls, mut] is object number k
+                                           \* (identity k, equality class cls, mut in-place mutations so far);
+                                           \* ob.idx[n] = number of the object local n holds (0: none of them)
           handed,                          \* id of the dictionary the last context.kwargs read returned (0: none)
           hist, outcome
-vars == <<enableLoop, entry, args, decl, pc, heap, dataId, kwId, locals, handed, hist, outcome>>
-cfgvars == <<enableLoop, entry, args, decl>>
+vars == <<enableLoop, entry, args, decl, paged, pc, heap, dataId, kwId, locals, ob, handed, hist, outcome>>
+cfgvars == <<enableLoop, entry, args, decl, paged>>
+NoObjects == [objs |-> <<>>, idx |-> [n \in DataNames |-> 0]]
+\* what a read of object k shows: its identity, its equality class, how often it was mutated in place
+Tag(o, k) == "L" \o ToString(k) \o ":c" \o ToString(o.objs[k].cls) \o ":m" \o ToString(o.objs[k].mut)
 
 Init ==
-  /\ pc = "construct" /\ heap = <<>> /\ dataId = 0 /\ kwId = 0 /\ locals = Empty /\ handed = 0
+  /\ pc = "construct" /\ heap = <<>> /\ dataId = 0 /\ kwId = 0 /\ locals = Empty /\ handed = 0 /\ ob = NoObjects
   /\ hist = <<>> /\ outcome = "run"
   /\ IF Family = "reserved"
      THEN /\ enableLoop \in BOOLEAN /\ entry \in Entries
           /\ \E a \in SUBSET DataNames, rs \in {{}} \cup {{n} : n \in ReservedAll} : args = a \cup rs
           /\ decl \in {NoDecl} \cup [kind : AssignKinds, name : ReservedAll \cup {"x"}]
+          /\ paged = FALSE
      ELSE /\ enableLoop = TRUE /\ entry = "render_context" /\ decl = NoDecl
-          /\ args \in SUBSET DataNames
+          /\ IF Family = "history" THEN args \in SUBSET DataNames /\ paged = FALSE
+             ELSE args \in {{}, {"x"}} /\ paged \in BOOLEAN        \* Family = "rebind"
 
 \* Template(...) / get_template: the compiler refuses reserved names assigned in the template
 Construct ==
@@ -67,7 +80,7 @@ Construct ==
   /\ IF decl.kind # "none" /\ decl.name \in Reserved(enableLoop)
      THEN outcome' = "NameConflictError@construct" /\ pc' = "end"
      ELSE outcome' = outcome /\ pc' = "enter"
-  /\ UNCHANGED <<cfgvars, heap, dataId, kwId, locals, handed, hist>>
+  /\ UNCHANGED <<cfgvars, heap, dataId, kwId, locals, ob, handed, hist>>
 \* render*(**args): Context(buffer, **args) then _set_with_template
 Enter ==
   /\ pc = "enter"
@@ -76,8 +89,13 @@ Enter ==
           /\ UNCHANGED <<heap, dataId, kwId>>
      ELSE /\ heap' = <<ArgDict(args), ArgDict(args)>>      \* _data, and _kwargs = a copy
           /\ dataId' = 1 /\ kwId' = 2 /\ outcome' = outcome
-          /\ pc' = IF Family = "history" THEN "body" ELSE "finish"
-  /\ UNCHANGED <<cfgvars, locals, handed, hist>>
+          /\ pc' = IF Family = "reserved" THEN "finish" ELSE "body"
+  \* <%page args="x=None, y=None"/>: render_body's arguments are body locals from the start; a render
+  \* argument of the name is handed to it
+  /\ locals' = IF paged /\ args \cap Reserved(enableLoop) = {}
+               THEN [n \in DataNames \cup {"new"} |-> IF n = "new" THEN Absent ELSE IF n \in args THEN "A_" \o n ELSE "PNone"]
+               ELSE locals
+  /\ UNCHANGED <<cfgvars, ob, handed, hist>>
 
 Step(op, n, obs) == /\ hist' = Append(hist, [op |-> op, n |-> n, obs |-> obs])
                     /\ UNCHANGED <<cfgvars, pc, dataId, kwId, outcome>>
@@ -87,47 +105,64 @@ Val(d, n) == IF d[n] = Absent THEN "NONE" ELSE d[n]
 ChildData == [n \in DataNames \cup {"new"} |-> IF locals[n] # Absent THEN locals[n] ELSE heap[dataId][n]]
 InBody == pc = "body" /\ Len(hist) < Depth
 
-Assign(n) ==        \* <% n = 'L<k>' %> in the body: a local of render_body, recorded in __M_locals
-  /\ InBody /\ locals' = [locals EXCEPT ![n] = "L" \o ToString(Len(hist) + 1)]
-  /\ Step("assign", n, locals'[n]) /\ UNCHANGED <<heap, handed>>
+\* <% n = <object> %> in the body: a local of render_body, recorded in __M_locals.  The object is NEW (a new
+\* identity); it is either unequal to everything before (Assign) or EQUAL to the object n held (AssignEqual:
+\* 1 -> 1.0, [] -> another []).  MutateLocal changes the held object in place: same identity, new content.
+Bind(n, cls) == LET k == Len(ob.objs) + 1 IN
+  /\ ob' = [objs |-> Append(ob.objs, [cls |-> IF cls = 0 THEN k ELSE cls, mut |-> 0]), idx |-> [ob.idx EXCEPT ![n] = k]]
+  /\ locals' = [locals EXCEPT ![n] = "L" \o ToString(k)]
+Assign(n) ==
+  /\ InBody /\ Bind(n, 0) /\ Step("assign", n, Tag(ob', ob'.idx[n])) /\ UNCHANGED <<heap, handed>>
+AssignEqual(n) ==
+  /\ InBody /\ ob.idx[n] # 0 /\ Bind(n, ob.objs[ob.idx[n]].cls)
+  /\ Step("assign_equal", n, Tag(ob', ob'.idx[n])) /\ UNCHANGED <<heap, handed>>
+MutateLocal(n) ==
+  /\ InBody /\ ob.idx[n] # 0
+  /\ ob' = [ob EXCEPT !.objs[ob.idx[n]].mut = @ + 1]
+  /\ Step("mutate_local", n, Tag(ob', ob.idx[n])) /\ UNCHANGED <<heap, locals, handed>>
+\* what a by-name def sees for n: the CURRENT object of the body local (identity, not merely an equal one)
+SeenByName(n) == IF ob.idx[n] # 0 THEN Tag(ob, ob.idx[n]) ELSE Val(ChildData, n)
 ReadCtx(n) ==       \* context.get(n) in the body
-  /\ InBody /\ Step("read_ctx", n, Val(heap[dataId], n)) /\ UNCHANGED <<heap, locals, handed>>
+  /\ InBody /\ Step("read_ctx", n, Val(heap[dataId], n)) /\ UNCHANGED <<heap, locals, ob, handed>>
 ReadSelfDef(n) ==   \* a def reached through self. reads n: no body locals
-  /\ InBody /\ Step("read_selfdef", n, Val(heap[dataId], n)) /\ UNCHANGED <<heap, locals, handed>>
+  /\ InBody /\ Step("read_selfdef", n, Val(heap[dataId], n)) /\ UNCHANGED <<heap, locals, ob, handed>>
 ReadByName(n, via) ==   \* a def called by name from the body reads n; the call stands in the body text or,
                         \* being the def's only reference, inside the body of a <%call> tag: same snapshot
   /\ InBody /\ heap' = Append(heap, ChildData)
-  /\ Step(IF via = "text" THEN "read_byname" ELSE "read_byname_callbody", n, Val(ChildData, n))
-  /\ UNCHANGED <<locals, handed>>
+  /\ Step(IF via = "text" THEN "read_byname" ELSE "read_byname_" \o via, n, SeenByName(n))
+  /\ UNCHANGED <<locals, ob, handed>>
 DefAssign(n, how) ==  \* a def assigns n (its own local) and shows it; nobody else is affected
   /\ InBody /\ heap' = (IF how = "byname" THEN Append(heap, ChildData) ELSE heap)
-  /\ Step("defassign_" \o how, n, "D") /\ UNCHANGED <<locals, handed>>
+  /\ Step("defassign_" \o how, n, "D") /\ UNCHANGED <<locals, ob, handed>>
 KwRead(where) ==    \* context.kwargs returns a new dictionary with the render arguments
   /\ InBody
   /\ LET h1 == IF where = "bynamedef" THEN Append(heap, ChildData) ELSE heap      \* child context shares _kwargs
      IN /\ heap' = Append(h1, heap[kwId]) /\ handed' = Len(h1) + 1
-  /\ Step("kwread_" \o where, "-", Show(heap'[handed'])) /\ UNCHANGED locals
+  /\ Step("kwread_" \o where, "-", Show(heap'[handed'])) /\ UNCHANGED <<locals, ob>>
 KwMutate(n) ==      \* the template changes the dictionary it was handed
   /\ InBody /\ handed # 0
   /\ heap' = [heap EXCEPT ![handed][n] = "M"]
-  /\ Step("kwmutate", n, "-") /\ UNCHANGED <<locals, handed>>
+  /\ Step("kwmutate", n, "-") /\ UNCHANGED <<locals, ob, handed>>
 Final == [ctx |-> Show(heap[dataId]), kw |-> Show(heap[kwId])]
 End ==
   /\ pc \in {"body", "finish"} /\ (pc = "body" => Len(hist) = Depth)
   /\ pc' = "end" /\ outcome' = "ok"
   /\ hist' = Append(hist, [op |-> "end", n |-> "-", obs |-> Final])
-  /\ UNCHANGED <<cfgvars, heap, dataId, kwId, locals, handed>>
+  /\ UNCHANGED <<cfgvars, heap, dataId, kwId, locals, ob, handed>>
 Report ==
   /\ pc = "end" /\ pc' = "printed"
-  /\ PrintT(ToJson([entry |-> entry, enable_loop |-> enableLoop, args |-> args, decl |-> decl,
+  /\ PrintT(ToJson([entry |-> entry, enable_loop |-> enableLoop, args |-> args, decl |-> decl, paged |-> paged,
                     outcome |-> outcome, hist |-> hist]))
-  /\ UNCHANGED <<cfgvars, heap, dataId, kwId, locals, handed, hist, outcome>>
-BodyStep == \/ \E n \in DataNames : Assign(n) \/ ReadCtx(n) \/ ReadSelfDef(n)
-            \/ \E n \in DataNames, via \in {"text", "callbody"} : ReadByName(n, via)
+  /\ UNCHANGED <<cfgvars, heap, dataId, kwId, locals, ob, handed, hist, outcome>>
+Vias == {"text", "callbody", "ctl", "anon"}       \* where in the body the by-name call is written
+RebindStep == \/ Assign("x") \/ AssignEqual("x") \/ MutateLocal("x") \/ Assign("y")
+              \/ \E via \in Vias : ReadByName("x", via)
+BodyStep == \/ \E n \in DataNames : Assign(n) \/ AssignEqual(n) \/ MutateLocal(n) \/ ReadCtx(n) \/ ReadSelfDef(n)
+            \/ \E n \in DataNames, via \in Vias : ReadByName(n, via)
             \/ \E n \in DataNames, how \in {"self", "byname"} : DefAssign(n, how)
             \/ \E w \in {"body", "selfdef", "bynamedef"} : KwRead(w)
             \/ \E n \in DataNames \cup {"new"} : KwMutate(n)
-Next == Construct \/ Enter \/ BodyStep \/ End \/ Report
+Next == Construct \/ Enter \/ (Family = "history" /\ BodyStep) \/ (Family = "rebind" /\ RebindStep) \/ End \/ Report
 Spec == Init /\ [][Next]_vars
 
 (* ------------------------------------------------------------------------ *)
